@@ -230,3 +230,52 @@ func RunTruncationSweep(t *testing.T, spec ProtoSpec) {
 	}
 	rec.SetExhaustive()
 }
+
+// FuzzSeeds returns a few valid frames of spec plus hostile constants, as the
+// starting corpus of the native fuzz targets.
+func FuzzSeeds(spec ProtoSpec) [][]byte {
+	Init()
+	msgs := []Msg{
+		{Seq: 1, Mtype: 1, Method: "/a/b", Codec: 'j', Body: []byte(`{"x":1}`)},
+		{Seq: -7, Mtype: 2, Method: "/a/b", Codec: 'j', HasStatus: true, Code: 404, StatMsg: "Not Found"},
+		{Seq: 9, Mtype: 1, Method: "/z", Codec: 'j', Body: []byte("hello hello hello"), Pipe: []byte{XGzip5}},
+	}
+	var out [][]byte
+	for _, m := range msgs {
+		if spec.Build != nil {
+			continue
+		}
+		if spec.Name == "http" {
+			m.Pipe = nil
+		}
+		wrw := &RW{}
+		if f, _, err := PackOne(spec, spec.Fn()(wrw), wrw, m); err == nil {
+			out = append(out, f)
+		}
+	}
+	out = append(out,
+		[]byte{0xff, 0xff, 0xff, 0xff}, []byte{0x7f, 0xff, 0xff, 0xff, 0, 0}, []byte{0, 0, 0, 5, 0}, []byte{0, 0, 0, 6, 255, 1},
+		[]byte("POST / HTTP/1.1\r\nContent-Length: 99999999\r\n\r\n"), []byte("HTTP/1.1 299 Business Error\r\nContent-Length: 2\r\n\r\n{}"))
+	return out
+}
+
+// FuzzOneUnpack is the body of the native fuzz targets: semantic oracles of
+// C06 at protocol level inside the target, global state reset at the top.
+func FuzzOneUnpack(t *testing.T, spec ProtoSpec, data []byte, limitSel uint8) {
+	Init()
+	limit := HostileLimits[int(limitSel)%len(HostileLimits)]
+	_, _, consumed, alloc, _ := UnpackMeasured(spec, data, limit)
+	if spec.AllocKnownKey == "" || !IsKnown(spec.AllocKnownKey) {
+		if b := AllocBound(limit, len(data)); alloc > b {
+			t.Fatalf("%s: one Unpack under read limit %d allocated %d bytes (bound %d) for input %x", spec.Name, limit, alloc, b, data)
+		}
+	}
+	if spec.SizePrefixed && len(data) >= 4 {
+		if ann := binary.BigEndian.Uint32(data); ann > limit && consumed > 4 && !(spec.AnnounceExempt != nil && spec.AnnounceExempt(ann)) {
+			t.Fatalf("%s: frame announces %d bytes under read limit %d but %d bytes were consumed", spec.Name, ann, limit, consumed)
+		}
+	}
+	if consumed > len(data) {
+		t.Fatalf("%s: consumed %d of %d bytes", spec.Name, consumed, len(data))
+	}
+}
